@@ -65,6 +65,7 @@ type Contract struct {
 	Unroll     int
 	Replay     string
 	Configs    []ConfigSpec
+	QuickCfg   map[string][]int64
 	Paths      int
 	Timeout    int
 }
@@ -414,6 +415,19 @@ func (db *ContractDB) LoadContractFile(path, pkgPath string) error {
 			}
 			cs := ConfigSpec{Name: strings.TrimSpace(name)}
 			r = strings.TrimSpace(r)
+			if main, q, ok := strings.Cut(r, " quick "); ok {
+				r = strings.TrimSpace(main)
+				if cur.QuickCfg == nil {
+					cur.QuickCfg = map[string][]int64{}
+				}
+				for _, s := range strings.Split(q, ",") {
+					v, err := strconv.ParseInt(strings.TrimSpace(s), 0, 64)
+					if err != nil {
+						return fail("config quick value: %v", err)
+					}
+					cur.QuickCfg[cs.Name] = append(cur.QuickCfg[cs.Name], v)
+				}
+			}
 			if lo, hi, ok := strings.Cut(r, ".."); ok {
 				l, _ := strconv.ParseInt(strings.TrimSpace(lo), 0, 64)
 				h, _ := strconv.ParseInt(strings.TrimSpace(hi), 0, 64)
